@@ -5,16 +5,44 @@ package core
 // Export shim for the /verif `dkgrun` engine (C07). No behaviour of its own.
 
 import (
+	"context"
+	"errors"
 	"time"
 
 	clock "github.com/jonboulle/clockwork"
 
 	"github.com/drand/drand/v2/common/key"
 	"github.com/drand/drand/v2/common/log"
+	"github.com/drand/drand/v2/internal/chain/beacon"
+	"github.com/drand/drand/v2/internal/dkg"
 )
 
 // VerifValidateGroupTransition runs the real (*BeaconProcess).validateGroupTransition with the process clock at `now`.
 func VerifValidateGroupTransition(l log.Logger, oldGroup, newGroup *key.Group, now int64) error {
 	bp := &BeaconProcess{log: l, opts: &Config{clock: clock.NewFakeClockAt(time.Unix(now, 0))}}
 	return bp.validateGroupTransition(oldGroup, newGroup)
+}
+
+// verifNoKeyStore: a key store that holds nothing; leaveNetwork only calls Reset on it.
+type verifNoKeyStore struct{ resets int }
+
+func (s *verifNoKeyStore) SaveKeyPair(*key.Pair) error     { return nil }
+func (s *verifNoKeyStore) LoadKeyPair() (*key.Pair, error) { return nil, errors.New("none") }
+func (s *verifNoKeyStore) SaveShare(*key.Share) error      { return nil }
+func (s *verifNoKeyStore) LoadShare() (*key.Share, error)  { return nil, errors.New("none") }
+func (s *verifNoKeyStore) SaveGroup(*key.Group) error      { return nil }
+func (s *verifNoKeyStore) LoadGroup() (*key.Group, error)  { return nil, errors.New("none") }
+func (s *verifNoKeyStore) Reset() error                    { s.resets++; return nil }
+func (s *verifNoKeyStore) TestWrite() error                { return nil }
+
+// VerifOnDKGCompleted hands the outcome of a resharing (previous group, new group) to the real
+// (*BeaconProcess).onDKGCompleted of the node `pair`, whose current group (bp.group) is `current` and whose running
+// handler is h, on the clock clk. For a node that is in `current` and not in `next` this is the leaveNetwork path.
+// Returns the number of key-store resets and the error of onDKGCompleted.
+func VerifOnDKGCompleted(l log.Logger, clk clock.Clock, pair *key.Pair, current, next *key.Group, h *beacon.Handler) (resets int, err error) {
+	ks := &verifNoKeyStore{}
+	bp := &BeaconProcess{log: l, opts: &Config{clock: clk}, priv: pair, beaconID: "default", group: current, beacon: h, store: ks}
+	out := &dkg.SharingOutput{BeaconID: "default", Old: &dkg.DBState{FinalGroup: current}, New: dkg.DBState{FinalGroup: next}}
+	err = bp.onDKGCompleted(context.Background(), out)
+	return ks.resets, err
 }
